@@ -98,7 +98,17 @@ def _replay(hist):
                 if op["k"] == "add":
                     with open(os.path.join("src", op["s"]), "wb") as f:
                         f.write(BYTES[op["c"]])
-                    cp.file_manager.add_named_file(name=op["n"], path=os.path.join("src", op["s"]))
+                    # the three registration routes end in the same Add action of NamedFiles.tla
+                    route = ("direct", "direct", "dict", "json")[(i + len(hist) + len(op["s"])) % 4]
+                    spath = os.path.join("src", op["s"])
+                    if route == "direct":
+                        cp.file_manager.add_named_file(name=op["n"], path=spath)
+                    elif route == "dict":
+                        cp.file_manager.set_named_files({op["n"]: spath})
+                    else:
+                        with open(os.path.join("src", "files.json"), "w", encoding="utf-8") as jf:
+                            json.dump({op["n"]: spath}, jf)
+                        cp.file_manager.set_named_files_from_json(os.path.join("src", "files.json"))
                 elif op["k"] == "mutate":
                     with open(os.path.join("src", op["s"]), "wb") as f:
                         f.write(BYTES[op["c"]])
